@@ -42,6 +42,13 @@ static std::vector<double> angles()
 	int den = mc::thorough() ? 48 : 12;
 	for(int k = -4 * den; k <= 4 * den; k++) a.push_back(k * M_PI / den);
 	for(double x : {1.0, -2.7, 0.123456789, 11.0}) a.push_back(x);
+	// small angles and angles next to the multiples of pi/2 (where a series shortcut or a reconstructed sine/cosine would lose accuracy)
+	for(double d : {1e-12, 1e-9, 1e-6, 1e-4, 5e-4, 9.9e-4, 1.1e-3, 1e-2})
+		for(double base : {0.0, M_PI / 2, M_PI, -M_PI / 2, 2 * M_PI})
+		{
+			a.push_back(base + d);
+			a.push_back(base - d);
+		}
 	return a;
 }
 
@@ -151,6 +158,16 @@ static void spherical(unsigned long long& unit)
 	thetas.push_back(1e-8);
 	thetas.push_back(M_PI - 1e-8);
 	for(int k = 0; k < 24; k++) phis.push_back(2 * M_PI * k / 24);
+	// azimuths next to the multiples of pi/2, for the exact-azimuth relation below (not part of the equally spaced ring)
+	std::vector<double> phis_fine;
+	for(double base : {0.0, M_PI / 2, M_PI, 3 * M_PI / 2})
+		for(double d : {1e-9, 1e-6, 3e-6, 1e-5, 1e-3})
+		{
+			if(base + d < 2 * M_PI) phis_fine.push_back(base + d);
+			if(base - d >= 0) phis_fine.push_back(base - d);
+		}
+	phis_fine.push_back(2 * M_PI - 1e-6);
+	mc::alphabet("phi_fine", phis_fine.size());
 	mc::alphabet("theta", thetas.size());
 	mc::alphabet("phi", phis.size());
 	long long cases = 0, righthanded = 0;
@@ -185,7 +202,36 @@ static void spherical(unsigned long long& unit)
 							if(!(mc::same_bits(w[0], v[0]) && mc::same_bits(w[1], v[1]) && mc::same_bits(w[2], v[2]))) fail("spherical_axis", key, "axis_plus_z_differs_from_plain", "axis +z must give the plain spherical coordinates bit for bit");
 						}
 					}
-					// right-handedness: n . (v(phi) x v(phi+d)) > 0 whenever sin(theta) is resolvable
+					// exact azimuth: with e1 the direction of v(phi=0) perpendicular to n and e2 = n x e1,
+				// v(phi) = r (cos(theta) n + sin(theta) (cos(phi) e1 + sin(phi) e2)) for every phi, in particular next to pi/2 and 3pi/2
+				if(ring.size() == phis.size() && std::sin(th) > 1e-3)
+				{
+					ld v0[3] = {ring[0][0], ring[0][1], ring[0][2]}, n[3] = {nx, ny, nz}, e1[3], e2[3];
+					ld d0 = v0[0] * n[0] + v0[1] * n[1] + v0[2] * n[2], m = 0;
+					for(int k = 0; k < 3; k++) { e1[k] = v0[k] - d0 * n[k]; m += e1[k] * e1[k]; }
+					m = sqrtl(m);
+					for(int k = 0; k < 3; k++) e1[k] /= m;
+					e2[0] = n[1] * e1[2] - n[2] * e1[1]; e2[1] = n[2] * e1[0] - n[0] * e1[2]; e2[2] = n[0] * e1[1] - n[1] * e1[0];
+					std::vector<double> all = phis;
+					all.insert(all.end(), phis_fine.begin(), phis_fine.end());
+					for(double ph : all)
+					{
+						Vector v;
+						if(mc::library_exits([&]() { v = Spherical_Coordinates(r, th, ph, axis); })) continue;
+						cases++;
+						ld worst = 0;
+						for(int k = 0; k < 3; k++)
+						{
+							ld want = r * (cosl((ld)th) * n[k] + sinl((ld)th) * (cosl((ld)ph) * e1[k] + sinl((ld)ph) * e2[k]));
+							worst = std::max(worst, fabsl(v[k] - want));
+						}
+						// the frame comes from the library's own v(0): its rounding error enters once more, amplified by 1/sin(theta)
+						ld tol = (64 + 16 / sinl((ld)th)) * mc::U_ * r;
+						if(!(worst <= tol)) fail("spherical_axis", "axis=" + mc::dec(A[ai].x * len) + "," + mc::dec(A[ai].y * len) + "," + mc::dec(A[ai].z * len) + ";r=" + mc::dec(r) + ";theta=" + mc::dec(th) + ";phi=" + mc::dec(ph), "azimuth_not_phi", "v(phi) deviates by " + mc::dec((double)worst) + " from the point at azimuth phi counted from v(0) (tol " + mc::dec((double)tol) + ")");
+						else mc::maxi("spherical_azimuth_error_over_tol", (double)(worst / tol));
+					}
+				}
+				// right-handedness: n . (v(phi) x v(phi+d)) > 0 whenever sin(theta) is resolvable
 					if(ring.size() == phis.size() && std::sin(th) > 1e-6)
 						for(size_t k = 0; k < ring.size(); k++)
 						{
@@ -199,6 +245,26 @@ static void spherical(unsigned long long& unit)
 						}
 				}
 		}
+	// call histories: the answer for an axis does not depend on the axis of the previous call (all ordered pairs of axes)
+	{
+		const double r = 1.5, th = 1.1, ph = 0.7;
+		for(size_t i = 0; i < A.size(); i++)
+		{
+			if(!mc::mine(unit++)) continue;
+			for(size_t j = 0; j < A.size(); j++)
+				for(double lj : {1.0, 2.5})
+				{
+					Vector ai({A[i].x, A[i].y, A[i].z}), aj({A[j].x * lj, A[j].y * lj, A[j].z * lj}), far({0.3, -0.4, 0.5});
+					Vector v1, v2;
+					// v1: the request made after an unrelated axis; v2: the same request made directly after a call with axis i
+					if(mc::library_exits([&]() { Spherical_Coordinates(r, th, ph, far); v1 = Spherical_Coordinates(r, th, ph, aj); Spherical_Coordinates(r, th, ph, far); Spherical_Coordinates(r, 0.3, 2.0, ai); v2 = Spherical_Coordinates(r, th, ph, aj); })) continue;
+					cases++;
+					mc::count("axis_history_pairs", 1);
+					if(!(mc::same_bits(v1[0], v2[0]) && mc::same_bits(v1[1], v2[1]) && mc::same_bits(v1[2], v2[2])))
+						fail("spherical_history", "previous_axis=" + mc::dec(A[i].x) + "," + mc::dec(A[i].y) + "," + mc::dec(A[i].z) + ";axis=" + mc::dec(A[j].x * lj) + "," + mc::dec(A[j].y * lj) + "," + mc::dec(A[j].z * lj), "depends_on_previous_axis", "the same request gives (" + mc::dec(v2[0]) + "," + mc::dec(v2[1]) + "," + mc::dec(v2[2]) + ") after a call with another axis and (" + mc::dec(v1[0]) + "," + mc::dec(v1[1]) + "," + mc::dec(v1[2]) + ") otherwise");
+				}
+		}
+	}
 	// plain overload: closed form bitwise; Angle
 	if(mc::mine(unit++))
 		for(double r : {1e-3, 1.0, 1e3})
